@@ -340,7 +340,9 @@ fn space_p(p: Params) -> BoxedStrategy<SpaceP> {
         (dec2(-30.0, 30.0), dec2(-30.0, 30.0), dec2(2.0, 20.0), dec2(2.0, 15.0), prop_oneof![2 => Just(0.0f32), 1 => dec2(0.0, 359.0)]),
         proptest::collection::vec(elem_p(p, 0, [2, 4, 2, 1]), 1..=2),
         prop_oneof![1 => Just(None), 5 => (elem_p(p, 1, [5, 1, 3, 1]), prop_oneof![3 => Just(true), 1 => Just(false)]).prop_map(Some)],
-        proptest::collection::vec(elem_p(p, 3, [6, 2, 2, 1]), 4..=4),
+        // four side walls; one space in ten is only partly enclosed or has no side wall at all (a model being
+        // entered element by element: space + slab + roof before the facades)
+        prop_oneof![9 => proptest::collection::vec(elem_p(p, 3, [6, 2, 2, 1]), 4..=4), 1 => proptest::collection::vec(elem_p(p, 3, [6, 2, 2, 1]), 0..=3)],
         (opt(1, any::<u16>().boxed()), opt(1, any::<u16>().boxed()), opt(3, dec2(0.0, 800.0))),
     )
         .prop_map(|((kind, inside, mult, height, z, n_v), (ox, oy, w, d, rot), floors, ceiling, sides, (loads, thermostat, illuminance))| SpaceP {
@@ -368,7 +370,7 @@ fn space_p(p: Params) -> BoxedStrategy<SpaceP> {
 fn tb_p() -> BoxedStrategy<TbP> {
     (
         0u8..9,
-        prop_oneof![1 => Just(0.0f32), 1 => Just(-0.0f32), 6 => dec2(0.01, 300.0), 2 => dec2(-300.0, -0.01)],
+        prop_oneof![1 => Just(0.0f32), 1 => Just(-0.0f32), 6 => dec2(0.01, 300.0), 2 => dec2(-300.0, -0.01), 1 => prop_oneof![Just(-0.004f32), Just(-0.0051f32), Just(-1e-6f32), Just(0.004f32), super::geom::dec3(-0.02, 0.02)]],
         dec2(-0.2, 1.5),
     )
         .prop_map(|(kind, l, psi)| TbP { kind, l, psi })
